@@ -12,3 +12,4 @@ import Adsg.Props.C13
 #print axioms Adsg.C13.perm_preRemoved_all
 #print axioms Adsg.C13.arch_satisfies_constraints
 #print axioms Adsg.C13.not_active_together_unconstrained
+#print axioms Adsg.C13.perm_no_preRemoval_when_conditional
